@@ -65,6 +65,9 @@ type Exec struct {
 	quantUsed []quantUse
 	clauseProps []string
 	inSpec    int
+	pendingPtrs []*Term
+	noAlloc   int
+	covers    []*Obligation
 }
 
 func NewExec(ctx *VerifCtx) *Exec {
@@ -140,6 +143,21 @@ func (ex *Exec) propsFor(kind string) []string {
 	return ex.curProps
 }
 
+// cover records a reachability check: the assumptions in force together with
+// pc must be satisfiable (a contradictory contract would make everything after
+// this point vacuously true).
+func (ex *Exec) cover(what string, pos token.Pos, pc *Term) {
+	if ex.dry > 0 || pc == False {
+		return
+	}
+	o := &Obligation{Name: fmt.Sprintf("%s/cover:%s#%d", ex.rootName, what, len(ex.covers)+1), Func: ex.rootName, Kind: "cover",
+		PC: pc, Goal: False, NAssume: len(ex.assumes), Clause: "reachable: " + what}
+	if pos.IsValid() {
+		o.Pos = ex.fset.Position(pos)
+	}
+	ex.covers = append(ex.covers, o)
+}
+
 func (ex *Exec) newCell(name string, t types.Type) *Cell {
 	ex.cellN++
 	return &Cell{id: ex.cellN, name: name, typ: t}
@@ -192,6 +210,7 @@ type Frame struct {
 	bind      []Value
 	edgeCond  map[[2]*ssa.BasicBlock]*Term
 	allocObjs map[*ssa.Alloc]types.Object
+	pointBlock map[int]*ssa.BasicBlock
 }
 
 type edge struct {
@@ -444,7 +463,7 @@ func (fr *Frame) runLoop(li *loopInfo, entry []edge) map[*ssa.BasicBlock][]edge 
 		return out
 	}
 	// invariant mode
-	env := fr.specEnv(st0, st0)
+	env := fr.specEnv(st0, fr.entry)
 	for _, inv := range invs {
 		if inv.Kind != "invariant" {
 			continue
@@ -499,6 +518,7 @@ func (fr *Frame) runLoop(li *loopInfo, entry []edge) map[*ssa.BasicBlock][]edge 
 			variant0 = v.(IntV).T
 		}
 	}
+	ex.cover("loop head "+loopName(li), li.head.Instrs[0].Pos(), pc0)
 	exits, backs := fr.runRegion(li, li.head, []edge{{nil, pc0, st1}})
 	for to, es := range exits {
 		out[to] = append(out[to], es...)
@@ -650,7 +670,29 @@ func (ex *Exec) execFunction(fn *ssa.Function, args []Value, bind []Value, st *S
 
 func (fr *Frame) execBlock(b *ssa.BasicBlock, pc *Term, st *State, addEdge func(from, to *ssa.BasicBlock, cond *Term, st *State)) {
 	ex := fr.ex
+	var points []*PointSpec
+	if fr.isRoot {
+		points = ex.ctx.pointSpecs(ex.ctx.contractFor(fr.fn))
+	}
+	firedHere := map[int]bool{}
 	for _, ins := range b.Instrs {
+		if len(points) > 0 {
+			if p := ins.Pos(); p.IsValid() {
+				if _, isDbg := ins.(*ssa.DebugRef); !isDbg {
+					pos := ex.fset.Position(p)
+					for _, ps := range points {
+						if pos.Line == ps.SrcLine && pos.Filename == ps.SrcFile && !firedHere[ps.Index] && fr.pointFirst(ps, b) {
+							firedHere[ps.Index] = true
+							env := fr.specEnv(st, fr.entry)
+							ex.clauseProps = ps.Props
+							g := ex.proveSpec(ps.Expr, ps.Info, env, pc)
+							ex.oblige("assert", fmt.Sprintf("at.%d", ps.Index), p, pc, g, "at \""+ps.Pattern+"\" assert "+ps.Text)
+							ex.clauseProps = nil
+						}
+					}
+				}
+			}
+		}
 		switch x := ins.(type) {
 		case *ssa.If:
 			c := fr.val(x.Cond).(BoolV).T
@@ -815,4 +857,36 @@ func maxLeafID(t *Term) int {
 	}
 	visit(t)
 	return m
+}
+
+// pointFirst: block b is the first block (lowest index) that has an
+// instruction on the line of the point assertion, so that the assertion fires
+// once, before the statement.
+func (fr *Frame) pointFirst(ps *PointSpec, b *ssa.BasicBlock) bool {
+	if fr.pointBlock == nil {
+		fr.pointBlock = map[int]*ssa.BasicBlock{}
+	}
+	if pb, ok := fr.pointBlock[ps.Index]; ok {
+		return pb == b
+	}
+	var best *ssa.BasicBlock
+	for _, blk := range fr.rpo {
+		for _, ins := range blk.Instrs {
+			if _, isDbg := ins.(*ssa.DebugRef); isDbg {
+				continue
+			}
+			if p := ins.Pos(); p.IsValid() {
+				pos := fr.ex.fset.Position(p)
+				if pos.Line == ps.SrcLine && pos.Filename == ps.SrcFile {
+					best = blk
+					break
+				}
+			}
+		}
+		if best != nil {
+			break
+		}
+	}
+	fr.pointBlock[ps.Index] = best
+	return best == b
 }
